@@ -34,6 +34,8 @@ pub mod circuit_breaker;
 pub mod confirmation;
 pub mod read;
 pub mod subscription;
+#[cfg(feature = "verif")]
+pub mod verif;
 pub mod write;
 
 pub type ReplicaRefs = ArrayVec<(RemoteActorRef<ClusterActor>, u64), MAX_REPLICATION_FACTOR>;
